@@ -946,7 +946,8 @@ class TemplateModel(object):
             for n in mapping:
                 inverse_mapping_dict[n].append(temp)
 
-        nan_idx = np.array([idx for idx, val in inverse_mapping_dict.items() if len(val) == 0])
+        nan_idx = np.array(
+            [idx for idx, val in inverse_mapping_dict.items() if len(val) == 0], dtype=np.int64)
 
         return inverse_mapping_dict, nan_idx
 
